@@ -52,6 +52,26 @@ LEVELS = {
         "note": "trusted: interpolate library as an abstract expansion function; harness-side InterpolationEnv",
         "technique": "Coq proof: refinement of the concrete loop to a list fold (loop invariant over slots) + algebraic corollaries under environment laws; differential correspondence",
     },
+    "C14": {
+        "text": "Coq theorems: the canonical serialiser is injective on well-formed JSON (equal payload bytes => equal algorithm name and equal canonical content; string escaping uniquely decodable; proved by unique decodability in context), depends only on the canonical form (member order at every level irrelevant), and the signed map is exactly the five mandatory fields (nil/empty identified) plus namespaced env:: entries for unshadowed pipeline variables. The model serialiser is tied to json.Marshal+jcs.Transform byte for byte on every generated payload; equivalence and non-collision pairs are checked on the real payload bytes.",
+        "note": "trusted: JCS number formatting and UTF-8 validity as wf hypotheses; key order bytewise",
+        "technique": "Coq proof: injectivity of the canonical serialiser (prefix-free code argument) + order-insensitivity; byte-exact differential correspondence",
+    },
+    "C01": {
+        "text": "Coq theorems over an ideal signature scheme: Verify rebuilds the payload from the presented step; if the value is the one Sign produced, verification succeeds only under the matching public key, with unaltered algorithm name, the same signed-field set, and canonically equal command, env, plugins (sources, configs, order), matrix, repository URL and every signed env variable (corollaries per mutation class); any other key fails; the unaltered signature verifies with extra unrelated variables. Built on the serialiser injectivity of C14. Real Verify verdicts for ~25 mutation classes per step with real EdDSA/ES256 (thorough: ES512, PS512) keys equal the model's verdicts.",
+        "note": "trusted: ideal signature scheme in place of cryptographic unforgeability; jwx",
+        "technique": "Coq proof: verify-soundness from payload injectivity under an ideal signature law; differential correspondence with real keys",
+    },
+    "C06": {
+        "text": "Coq theorems by induction over step trees: SignSteps refuses iff an unknown step occurs at any depth; on success nothing but signatures changes (erase_sig frame), every command step at every depth carries the signature of that step, which verifies under the public key, names the key's algorithm and lists exactly the sorted five mandatory fields plus env::NAME for each unshadowed pipeline variable. Correspondence on generated step trees with real keys.",
+        "note": "trusted: ideal signature scheme; the caller's env map is a value in the model (unchanged by construction), checked on the implementation by the oracle",
+        "technique": "Coq proof: induction over nested step lists; differential correspondence",
+    },
+    "C04": {
+        "text": "Coq theorems for every expansion function: the walk fails exactly when some visited string fails to expand; the strings of the result are, as multisets, the single expansions of the strings of the input (exactly once, no idempotence assumed) under the stated no-collision condition, with a machine-checked counterexample showing the condition is needed; ordered maps keep their order; the result for Go maps is independent of iteration order; signatures untouched and structure preserved. Field scope by Tie theorems over the regenerated interpolate-method table. Correspondence through Parse+Interpolate incl. the env block, with an exactly-once oracle against the real interpolate library.",
+        "note": "trusted: interpolate library abstract; subset model only for the correspondence",
+        "technique": "Coq proof: multiset characterisation of the walkers + permutation-invariance; generated scope-table Tie; differential correspondence",
+    },
 }
 
 REASONS_PENDING = "check not built yet in this revision (work in progress; see DESIGN.md §10 build order)"
